@@ -24,7 +24,7 @@ impl RequestId {
     pub fn check(&self, v: i64) -> bool {
         self.0 == v
     }
-    #[cfg(gufo_snmp_verif)]
+    #[cfg(all(gufo_snmp_verif, not(gufo_snmp_verif_nostate)))]
     pub fn verif_value(&self) -> i64 {
         self.0
     }
